@@ -37,6 +37,54 @@ func calleeOf(c *ssa.CallCommon) (*ssa.Function, *types.Func) {
 	return nil, nil
 }
 
+// calleesOf: the functions a call may run: its static callee, or — for a call through a local function
+// value chosen among named functions (f := A; if c { f = B }; f(x)) — every candidate. nil if any
+// candidate is unknown.
+func calleesOf(c *ssa.CallCommon) []*ssa.Function {
+	if f, _ := calleeOf(c); f != nil {
+		return []*ssa.Function{f}
+	}
+	if c.IsInvoke() {
+		return nil
+	}
+	var out []*ssa.Function
+	seen := map[ssa.Value]bool{}
+	var walk func(v ssa.Value, d int) bool
+	walk = func(v ssa.Value, d int) bool {
+		if seen[v] {
+			return true
+		}
+		seen[v] = true
+		if d > 6 {
+			return false
+		}
+		switch x := v.(type) {
+		case *ssa.Function:
+			out = append(out, x)
+			return true
+		case *ssa.MakeClosure:
+			if f, ok := x.Fn.(*ssa.Function); ok {
+				out = append(out, f)
+				return true
+			}
+		case *ssa.ChangeType:
+			return walk(x.X, d+1)
+		case *ssa.Phi:
+			for _, e := range x.Edges {
+				if !walk(e, d+1) {
+					return false
+				}
+			}
+			return true
+		}
+		return false
+	}
+	if !walk(c.Value, 0) {
+		return nil
+	}
+	return out
+}
+
 // origin maps an instantiated generic function to its origin.
 // genericName: the function's name without type arguments (slices.IndexFunc[[]string string] -> IndexFunc).
 func genericName(f *ssa.Function) string {
@@ -165,6 +213,10 @@ func withAnonD(fn *ssa.Function, depth int, seen map[*ssa.Function]bool) []*ssa.
 						add(f)
 					}
 				}
+				// a new helper that could not be expanded in place (defer, recursion, …) and is called directly
+				if f := x.Common().StaticCallee(); f != nil && f.Parent() == nil {
+					add(f)
+				}
 			}
 		}
 	}
@@ -216,6 +268,7 @@ type Edge struct {
 	From *ssa.BasicBlock
 	Succ int
 	Via  *ssa.BasicBlock // when set: the edge only counts for control that entered From from Via (a branch on a phi of From)
+	Phi  *ssa.Phi        // when set (with Via): the edge only counts while Phi holds the value that flowed in from Via (a named condition tested in a later block)
 }
 
 func (e Edge) To() *ssa.BasicBlock { return e.From.Succs[e.Succ] }
@@ -347,6 +400,19 @@ func (g *Graph) PathExists(from, to IPos, av Avoid) (bool, []*ssa.BasicBlock) {
 	if track {
 		zero = string(make([]byte, len(g.iphis)+len(g.rconds)))
 	}
+	// avoided edges that only count while a named condition holds the value of one of its inputs
+	var phiEdges map[Edge][]Edge
+	if track {
+		for e := range av.Edges {
+			if e.Phi != nil {
+				if phiEdges == nil {
+					phiEdges = map[Edge][]Edge{}
+				}
+				k := Edge{From: e.From, Succ: e.Succ}
+				phiEdges[k] = append(phiEdges[k], e)
+			}
+		}
+	}
 	start := &st{b: from.B, facts: zero}
 	if av.StartPrev != nil {
 		start.prev = &st{b: av.StartPrev, facts: zero}
@@ -396,6 +462,19 @@ func (g *Graph) PathExists(from, to IPos, av Avoid) (bool, []*ssa.BasicBlock) {
 			}
 			if av.Edges != nil && s.prev != nil && av.Edges[Edge{From: e.From, Succ: e.Succ, Via: s.prev.b}] {
 				continue
+			}
+			if phiEdges != nil {
+				skip := false
+				for _, pe := range phiEdges[e] {
+					if i, ok := g.iphiIdx[pe.Phi]; ok && i < len(s.facts) && s.facts[i] >= 3 {
+						if k := int(s.facts[i]) - 3; k < len(pe.Phi.Block().Preds) && pe.Phi.Block().Preds[k] == pe.Via {
+							skip = true
+						}
+					}
+				}
+				if skip {
+					continue
+				}
 			}
 			t := e.To()
 			nf := s.facts
@@ -570,6 +649,18 @@ func (g *Graph) enter(facts string, p, b *ssa.BasicBlock) string {
 		var f byte
 		if inc := incomingFrom(phi, p); inc != nil {
 			f = g.factOf(inc, facts, p, b)
+			if f >= 3 {
+				f = 0 // provenance of another phi says nothing about this one
+			}
+			if _, isPhi := inc.(*ssa.Phi); f == 0 && !isPhi && isBoolType(phi.Type()) {
+				// value unknown, provenance known: the phi holds what flowed in from p
+				for k, pr := range b.Preds {
+					if pr == p && k < 250 {
+						f = byte(3 + k)
+						break
+					}
+				}
+			}
 		}
 		if out == nil {
 			out = []byte(facts)
@@ -629,7 +720,7 @@ func (g *Graph) evalCond(c ssa.Value, facts string, depth int) (bool, bool) {
 	}
 	if len(g.rconds) > 0 {
 		if k, ok := g.rconds[condNF(c)]; ok && len(g.iphis)+k < len(facts) {
-			if f := facts[len(g.iphis)+k]; f != 0 {
+			if f := facts[len(g.iphis)+k]; f == 1 || f == 2 {
 				return f == 1, true
 			}
 		}
@@ -645,7 +736,7 @@ func (g *Graph) evalCond(c ssa.Value, facts string, depth int) (bool, bool) {
 			return !v, k
 		}
 	case *ssa.Phi:
-		if i, ok := g.iphiIdx[x]; ok && facts[i] != 0 {
+		if i, ok := g.iphiIdx[x]; ok && (facts[i] == 1 || facts[i] == 2) {
 			return facts[i] == 1, true
 		}
 	case *ssa.BinOp:
@@ -662,7 +753,7 @@ func (g *Graph) evalCond(c ssa.Value, facts string, depth int) (bool, bool) {
 			return false, false
 		}
 		if ph, ok := o.(*ssa.Phi); ok {
-			if i, ok := g.iphiIdx[ph]; ok && facts[i] != 0 {
+			if i, ok := g.iphiIdx[ph]; ok && (facts[i] == 1 || facts[i] == 2) {
 				isNil := facts[i] == 1
 				return isNil == (x.Op == token.EQL), true
 			}
@@ -701,6 +792,11 @@ func (g *Graph) resolveAt(v ssa.Value, at IPos) ssa.Value {
 		v = only
 	}
 	return v
+}
+
+func isBoolType(t types.Type) bool {
+	bt, ok := t.Underlying().(*types.Basic)
+	return ok && bt.Kind() == types.Bool
 }
 
 func blockHasPhi(b *ssa.BasicBlock) bool {
@@ -1058,8 +1154,14 @@ func condEdgesD(c ssa.Value, depth int) []truthEdge {
 					continue
 				}
 				for _, e := range condEdgesD(r, depth+1) {
-					if e.From == r.Block() && e.Via == nil {
+					if e.Via != nil {
+						continue
+					}
+					if e.From == r.Block() {
 						out = append(out, truthEdge{Edge{From: e.From, Succ: e.Succ, Via: r.Block().Preds[i]}, e.truth})
+					} else {
+						// tested in a later block: counts while the phi still holds what flowed in from pred i
+						out = append(out, truthEdge{Edge{From: e.From, Succ: e.Succ, Via: r.Block().Preds[i], Phi: r}, e.truth})
 					}
 				}
 			}
